@@ -110,13 +110,13 @@ Local Notation len := List.length.
 Definition tm (L : nat) (s : st) : N := steps s + excess s + N.of_nat (L - len (rest s)).
 Definition J (L : nat) (s : st) : Prop := (alloc s <= um s * tm L s)%N.
 
-Definition R (s s' : st) : Prop :=
+Definition R4 (s s' : st) : Prop :=
   (len (rest s') <= len (rest s))%nat /\ (has_err s = true -> has_err s' = true) /\
   (um s <= um s')%N /\ (forall L, (len (rest s) <= L)%nat -> J L s -> J L s').
 
-Lemma R_refl : forall s, R s s.
+Lemma R4_refl : forall s, R4 s s.
 Proof. intros s. repeat split; auto. lia. Qed.
-Lemma R_trans : forall a b c, R a b -> R b c -> R a c.
+Lemma R4_trans : forall a b c, R4 a b -> R4 b c -> R4 a c.
 Proof.
   intros a b c [H1 [H2 [H3 H4]]] [H5 [H6 [H7 H8]]]. split; [lia|]. split; [auto|]. split; [lia|].
   intros L HL HJ. apply H8; [lia|]. apply H4; auto.
@@ -140,6 +140,19 @@ Proof.
   assert ((m * (tm L s + d) <= m * tm L s')%N) by (apply N.mul_le_mono_l; exact Ht).
   lia.
 Qed.
+
+
+(* R4, and: the loop-stopping flag is constant, and a decoder whose loops stop never spins *)
+Definition R (s s' : st) : Prop := R4 s s' /\ lstop s' = lstop s /\ (lstop s = true -> spin s' = spin s).
+Lemma R_refl : forall s, R s s.
+Proof. intros s. split; [apply R4_refl|]. split; auto. Qed.
+Lemma R_trans : forall a b c, R a b -> R b c -> R a c.
+Proof.
+  intros a b c [H1 [H2 H3]] [H4 [H5 H6]]. split; [eapply R4_trans; eauto|]. split; [congruence|].
+  intros H. rewrite H6 by congruence. auto.
+Qed.
+Lemma R_of4 : forall s s', R4 s s' -> lstop s' = lstop s -> spin s' = spin s -> R s s'.
+Proof. intros. split; [assumption|]. split; auto. Qed.
 
 (* every state a result tree mentions is R-after s0 *)
 Fixpoint allR {A} (s0 : st) (r : out A) : Prop :=
@@ -235,63 +248,97 @@ Proof. intros s e. unfold has_err, merge. destruct (err s); [reflexivity|discrim
 
 Ltac rkeep s := intros L HL HJ; eapply (J_keep L s); [reflexivity|cbn; lia|unfold tm; cbn; lia|exact HJ].
 
-Lemma R_set_rest : forall s r e d, (len r <= len (rest s))%nat -> R s (set_rest s r (merge (err s) e) d).
+Lemma R4_set_rest : forall s r e d, (len r <= len (rest s))%nat -> R4 s (set_rest s r (merge (err s) e) d).
 Proof.
   intros s r e d H. split; [exact H|]. split; [unfold has_err at 2; cbn; apply has_err_merge|]. split; [cbn; lia|].
   intros L HL HJ. eapply (J_keep L s); [reflexivity|cbn; lia|unfold tm; cbn; lia|exact HJ].
 Qed.
-Lemma R_set_rest_same : forall s r d, (len r <= len (rest s))%nat -> R s (set_rest s r (err s) d).
+Lemma R4_set_rest_same : forall s r d, (len r <= len (rest s))%nat -> R4 s (set_rest s r (err s) d).
 Proof.
   intros s r d H. split; [exact H|]. split; [unfold has_err; cbn; auto|]. split; [cbn; lia|].
   intros L HL HJ. eapply (J_keep L s); [reflexivity|cbn; lia|unfold tm; cbn; lia|exact HJ].
 Qed.
-Lemma R_set_error : forall s k, R s (set_error s k).
+Lemma R4_set_error : forall s k, R4 s (set_error s k).
 Proof. intros s k. split; [cbn; lia|]. split; [unfold has_err; cbn; destruct (err s); auto|]. split; [cbn; lia|rkeep s]. Qed.
-Lemma R_force_error : forall s k, R s (force_error s k).
+Lemma R4_force_error : forall s k, R4 s (force_error s k).
 Proof. intros s k. split; [cbn; lia|]. split; [unfold has_err; cbn; auto|]. split; [cbn; lia|rkeep s]. Qed.
-Lemma R_add_ref : forall s r, R s (add_ref s r).
+Lemma R4_add_ref : forall s r, R4 s (add_ref s r).
 Proof.
-  intros s r. unfold add_ref. destruct (simple s); [apply R_refl|].
+  intros s r. unfold add_ref. destruct (simple s); [apply R4_refl|].
   split; [cbn; lia|]. split; [unfold has_err; cbn; auto|]. split; [cbn; lia|rkeep s].
 Qed.
-Lemma R_add_class : forall s c, R s (add_class s c).
+Lemma R4_add_class : forall s c, R4 s (add_class s c).
 Proof. intros. split; [cbn; lia|]. split; [unfold has_err; cbn; auto|]. split; [cbn; lia|rkeep s]. Qed.
-Lemma R_add_alloc : forall s n, R s (add_alloc s n).
+Lemma R4_add_alloc : forall s n, R4 s (add_alloc s n).
 Proof.
   intros. split; [cbn; lia|]. split; [unfold has_err; cbn; auto|]. split; [cbn; lia|].
   intros L HL HJ. eapply (J_pay L s _ n n 1); [reflexivity|reflexivity|unfold tm; cbn; lia|lia|exact HJ].
 Qed.
-Lemma R_charge : forall s n, R s (charge s n).
-Proof. intros. unfold charge. destruct (n =? 0)%N; [apply R_refl|apply R_add_alloc]. Qed.
-Lemma R_add_rsv : forall s n, R s (add_rsv s n).
+Lemma R4_charge : forall s n, R4 s (charge s n).
+Proof. intros. unfold charge. destruct (n =? 0)%N; [apply R4_refl|apply R4_add_alloc]. Qed.
+Lemma R4_add_rsv : forall s n, R4 s (add_rsv s n).
 Proof. intros. split; [cbn; lia|]. split; [unfold has_err; cbn; auto|]. split; [cbn; lia|rkeep s]. Qed.
-Lemma R_add_excess : forall s n, R s (add_excess s n).
+Lemma R4_add_excess : forall s n, R4 s (add_excess s n).
 Proof. intros. split; [cbn; lia|]. split; [unfold has_err; cbn; auto|]. split; [cbn; lia|rkeep s]. Qed.
-Lemma R_add_steps : forall s n, R s (add_steps s n).
+Lemma R4_add_steps : forall s n, R4 s (add_steps s n).
 Proof. intros. split; [cbn; lia|]. split; [unfold has_err; cbn; auto|]. split; [cbn; lia|rkeep s]. Qed.
-Lemma R_set_corrupt : forall s, R s (set_corrupt s).
+Lemma R4_set_corrupt : forall s, R4 s (set_corrupt s).
 Proof. intros. split; [cbn; lia|]. split; [unfold has_err; cbn; auto|]. split; [cbn; lia|rkeep s]. Qed.
-Lemma R_set_simple : forall s b, R s (set_simple s b).
+Lemma R4_set_simple : forall s b, R4 s (set_simple s b).
 Proof. intros. split; [cbn; lia|]. split; [unfold has_err; cbn; auto|]. split; [cbn; lia|rkeep s]. Qed.
-Lemma R_reset_refs : forall s, R s (reset_refs s).
+Lemma R4_reset_refs : forall s, R4 s (reset_refs s).
 Proof. intros. split; [cbn; lia|]. split; [unfold has_err; cbn; auto|]. split; [cbn; lia|rkeep s]. Qed.
-Lemma R_spin_by : forall s n p, R s (spin_by s n p).
+Lemma R4_spin_by : forall s n p, R4 s (spin_by s n p).
 Proof.
   intros. split; [cbn; lia|]. split; [unfold has_err; cbn; auto|]. split; [cbn; lia|].
   intros L HL HJ. eapply (J_pay L s _ (n * p) p n); [reflexivity|reflexivity|unfold tm; cbn; lia|lia|exact HJ].
 Qed.
-Lemma R_skip_by : forall s n p, R s (skip_by s n p).
+Lemma R4_skip_by : forall s n p, R4 s (skip_by s n p).
 Proof.
   intros. split; [cbn; lia|]. split; [unfold has_err; cbn; auto|]. split; [cbn; lia|].
   intros L HL HJ. eapply (J_pay L s _ (n * p) p n); [reflexivity|reflexivity|unfold tm; cbn; lia|lia|exact HJ].
 Qed.
 (* the input ran out: everything left counts as consumed *)
-Lemma R_short_by : forall s e ex a u, (a <= u * (ex + N.of_nat (len (rest s))))%N ->
-  R s (short_by s (merge (err s) e) ex a u).
+Lemma R4_short_by : forall s e ex a u, (a <= u * (ex + N.of_nat (len (rest s))))%N ->
+  R4 s (short_by s (merge (err s) e) ex a u).
 Proof.
   intros s e ex a u Ha. split; [cbn; lia|]. split; [unfold has_err at 2; cbn; apply has_err_merge|]. split; [cbn; lia|].
   intros L HL HJ. eapply (J_pay L s _ a u (ex + N.of_nat (len (rest s)))); [reflexivity|reflexivity| |exact Ha|exact HJ].
   unfold tm. cbn [steps excess rest short_by len]. lia.
+Qed.
+
+
+(* ---- the same for R *)
+Ltac r4 lem := intros; apply R_of4; [apply lem; assumption|reflexivity|reflexivity].
+Lemma R_set_rest : forall s r e d, (len r <= len (rest s))%nat -> R s (set_rest s r (merge (err s) e) d).
+Proof. r4 R4_set_rest. Qed.
+Lemma R_set_rest_same : forall s r d, (len r <= len (rest s))%nat -> R s (set_rest s r (err s) d).
+Proof. r4 R4_set_rest_same. Qed.
+Lemma R_set_error : forall s k, R s (set_error s k). Proof. r4 R4_set_error. Qed.
+Lemma R_force_error : forall s k, R s (force_error s k). Proof. r4 R4_force_error. Qed.
+Lemma R_add_ref : forall s r, R s (add_ref s r).
+Proof. intros. apply R_of4; [apply R4_add_ref|unfold add_ref; destruct (simple s); reflexivity|unfold add_ref; destruct (simple s); reflexivity]. Qed.
+Lemma R_add_class : forall s c, R s (add_class s c). Proof. r4 R4_add_class. Qed.
+Lemma R_add_alloc : forall s n, R s (add_alloc s n). Proof. r4 R4_add_alloc. Qed.
+Lemma R_charge : forall s n, R s (charge s n).
+Proof. intros. unfold charge. destruct (n =? 0)%N; [apply R_refl|apply R_add_alloc]. Qed.
+Lemma R_add_rsv : forall s n, R s (add_rsv s n). Proof. r4 R4_add_rsv. Qed.
+Lemma R_add_excess : forall s n, R s (add_excess s n). Proof. r4 R4_add_excess. Qed.
+Lemma R_add_steps : forall s n, R s (add_steps s n). Proof. r4 R4_add_steps. Qed.
+Lemma R_set_corrupt : forall s, R s (set_corrupt s). Proof. r4 R4_set_corrupt. Qed.
+Lemma R_set_simple : forall s b, R s (set_simple s b). Proof. r4 R4_set_simple. Qed.
+Lemma R_reset_refs : forall s, R s (reset_refs s). Proof. r4 R4_reset_refs. Qed.
+Lemma R_skip_by : forall s n p, R s (skip_by s n p). Proof. r4 R4_skip_by. Qed.
+Lemma R_short_by : forall s e ex a u, (a <= u * (ex + N.of_nat (len (rest s))))%N ->
+  R s (short_by s (merge (err s) e) ex a u).
+Proof. r4 R4_short_by. Qed.
+(* spinning happens only in a decoder whose loops do not stop *)
+Lemma R_spin_by : forall s n p, lstop s = false -> R s (spin_by s n p).
+Proof. intros s n p H. split; [apply R4_spin_by|]. split; [reflexivity|]. intros H1. congruence. Qed.
+Lemma stuck_not_stopping : forall s, lstop s && has_err s = false -> stuck s = true -> lstop s = false.
+Proof.
+  intros s H1 H2. unfold stuck in H2. destruct (rest s); [|discriminate]. rewrite H2 in H1.
+  destruct (lstop s); [discriminate|reflexivity].
 Qed.
 
 (* ---- primitives returning a pair *)
@@ -352,7 +399,7 @@ Ltac solveR :=
   | |- R ?s (set_corrupt ?x) => apply (R_trans s x); [solveR|apply R_set_corrupt]
   | |- R ?s (set_simple ?x _) => apply (R_trans s x); [solveR|apply R_set_simple]
   | |- R ?s (reset_refs ?x) => apply (R_trans s x); [solveR|apply R_reset_refs]
-  | |- R ?s (spin_by ?x _ _) => apply (R_trans s x); [solveR|apply R_spin_by]
+  | |- R ?s (spin_by ?x _ _) => apply (R_trans s x); [solveR|apply R_spin_by; eauto using stuck_not_stopping]
   | |- R ?s (skip_by ?x _ _) => apply (R_trans s x); [solveR|apply R_skip_by]
   | |- R ?s (skip1 ?x) => apply (R_trans s x); [solveR|apply R_skip1]
   | |- R ?s (read_time ?x) => apply (R_trans s x); [solveR|apply R_read_time]
@@ -410,7 +457,7 @@ Proof.
     destruct (fits (b :: w) n) eqn:Ef; [cbn [allR]; apply Hs|].
     apply fits_false in Ef.
     assert (H0 : forall ex, R s (short_by s (merge (err s) (Some EEOF)) ex 0 1)) by (intros; apply R_short_by; lia).
-    destruct (fx_next fx); [cbn [allR]; apply H0|].
+    destruct (fx_next fx); [cbn [allR]; apply R_short_by; rewrite E; lia|].
     destruct (max_alloc <? Z.to_N n)%N; cbn [allR]; [split; [apply R_refl|apply H0]|].
     apply R_short_by. rewrite E. lia.
 Qed.
@@ -423,7 +470,7 @@ Proof.
   assert (H0 : forall ex, R s (short_by s (merge (err s) (Some EEOF)) ex 0 3)) by (intros; apply R_short_by; lia).
   destruct (str_scan _ false _ _ _); try leafA.
   destruct ((off <? len (b :: w)) || _); [cbn [allR]; apply Hs|].
-  destruct (fx_str fx); [cbn [allR]; apply H0|].
+  destruct (fx_str fx); [cbn [allR]; apply R_short_by; rewrite E; lia|].
   destruct (wrap_int (n0 * 3) <? 0)%Z; [cbn [allR]; split; [apply R_refl|apply H0]|].
   destruct (max_alloc <? _)%N; cbn [allR]; [split; [apply R_refl|apply H0]|].
   apply R_short_by. lia.
@@ -520,23 +567,26 @@ Proof. intros m per np n s. unfold counted. solveB; destruct m; leafA. Qed.
 
 (* loops: the body keeps R, so does the loop *)
 Lemma allR_loop : forall (body : st -> out unit) slot per, (forall x, allR x (body x)) ->
-  forall k n s, allR s (loop fx k body slot per n s).
+  forall k n s, allR s (loop k body slot per n s).
 Proof.
-  intros body slot per Hb. induction k as [|k IH]; intros n s; cbn [loop]; solveB.
-  - apply (allR_weaken _ _ s (charge s slot)); [apply R_charge|apply Hb].
-  - eapply allR_weaken; [apply R_refl|apply IH].
+  intros body slot per Hb. induction k as [|k IH]; intros n s; cbn [loop].
+  - (destruct (n <=? 0)%Z; [leafA|]). destruct (lstop s && has_err s) eqn:E1; [leafA|]; destruct (stuck s) eqn:E2; [cbn [allR]; apply R_spin_by; eapply stuck_not_stopping; eauto|]. exact I.
+  - (destruct (n <=? 0)%Z; [leafA|]). destruct (lstop s && has_err s) eqn:E1; [leafA|]; destruct (stuck s) eqn:E2; [cbn [allR]; apply R_spin_by; eapply stuck_not_stopping; eauto|].
+    apply allR_bnd; [apply (allR_weaken _ _ s (charge s slot)); [apply R_charge|apply Hb]|].
+    intros a x. apply IH.
 Qed.
 
 Lemma allR_iter_names : forall (body : bytes -> st -> out unit) slot, (forall nm x, allR x (body nm x)) ->
-  forall l s, allR s (iter_names fx body slot l s).
+  forall l s, allR s (iter_names body slot l s).
 Proof.
-  intros body slot Hb. induction l as [|nm l IH]; intros s; cbn [iter_names]; solveB.
-  - apply (allR_weaken _ _ s (charge s slot)); [apply R_charge|apply Hb].
-  - eapply allR_weaken; [apply R_refl|apply IH].
+  intros body slot Hb. induction l as [|nm l IH]; intros s; cbn [iter_names]; [leafA|].
+  destruct (lstop s && has_err s) eqn:E1; [leafA|]; destruct (stuck s) eqn:E2; [cbn [allR]; apply R_spin_by; eapply stuck_not_stopping; eauto|].
+  apply allR_bnd; [apply (allR_weaken _ _ s (charge s slot)); [apply R_charge|apply Hb]|].
+  intros a x. apply IH.
 Qed.
 
 Lemma allR_over_names : forall lf (body : bytes -> st -> out unit) per c, (forall nm x, allR x (body nm x)) ->
-  forall s, allR s (over_names fx lf body per c s).
+  forall s, allR s (over_names lf body per c s).
 Proof.
   intros lf body per c Hb s. unfold over_names. apply allR_bnd; [apply allR_iter_names; exact Hb|].
   intros a x. apply allR_loop. intros y. apply Hb.
@@ -558,8 +608,8 @@ Ltac stepC :=
   | |- allR ?s0 (rt _ _ ?x) => apply (allR_weaken _ _ s0 x); [solveR|apply Hrt]
   | |- allR ?s0 (read_reference _ _ _ ?x) => apply (allR_weaken _ _ s0 x); [solveR|apply allR_read_reference]
   | |- allR ?s0 (counted _ _ _ _ _ ?x) => apply (allR_weaken _ _ s0 x); [solveR|apply allR_counted]
-  | |- allR ?s0 (loop _ _ _ _ _ _ ?x) => apply (allR_weaken _ _ s0 x); [solveR|apply allR_loop; intros ?]
-  | |- allR ?s0 (over_names _ _ _ _ _ ?x) => apply (allR_weaken _ _ s0 x); [solveR|apply allR_over_names; intros ? ?]
+  | |- allR ?s0 (loop _ _ _ _ _ ?x) => apply (allR_weaken _ _ s0 x); [solveR|apply allR_loop; intros ?]
+  | |- allR ?s0 (over_names _ _ _ _ ?x) => apply (allR_weaken _ _ s0 x); [solveR|apply allR_over_names; intros ? ?]
   | |- allR _ (unit_of _) => unfold unit_of
   | |- allR _ (match flookup _ _ with Some _ => _ | None => _ end) => destruct (flookup _ _)
   | |- allR _ (match ctype _ with Some _ => _ | None => _ end) => destruct (ctype _)
@@ -568,22 +618,30 @@ Ltac stepC :=
   end.
 Ltac solveC := repeat stepC.
 
-Lemma allR_names_loop : forall k n acc s, allR s (names_loop fx rv k n acc s).
+Lemma allR_names_loop : forall k n acc s, allR s (names_loop rv k n acc s).
 Proof.
-  induction k as [|k IH]; intros n acc s; cbn [names_loop]; solveC.
-  eapply allR_weaken; [apply R_refl|apply IH].
+  induction k as [|k IH]; intros n acc s; cbn [names_loop].
+  - (destruct (n <=? 0)%Z; [leafA|]). destruct (lstop s && has_err s) eqn:E1; [leafA|]; destruct (stuck s) eqn:E2; [cbn [allR]; apply R_spin_by; eapply stuck_not_stopping; eauto|]. exact I.
+  - (destruct (n <=? 0)%Z; [leafA|]). destruct (lstop s && has_err s) eqn:E1; [leafA|]; destruct (stuck s) eqn:E2; [cbn [allR]; apply R_spin_by; eapply stuck_not_stopping; eauto|].
+    apply allR_bnd; [apply (allR_weaken _ _ s (add_alloc s 16)); [apply R_add_alloc|apply Hrv]|].
+    intros a x. apply IH.
 Qed.
 
-Lemma allR_map_loop : forall ks vs per k n acc s, allR s (map_loop fx rv k ks vs per n acc s).
+Lemma allR_map_loop : forall ks vs per k n acc s, allR s (map_loop rv k ks vs per n acc s).
 Proof.
-  intros ks vs per. induction k as [|k IH]; intros n acc s; cbn [map_loop]; solveC.
-  destruct ks; solveC; try (eapply allR_weaken; [|apply IH]; solveR).
+  intros ks vs per. induction k as [|k IH]; intros n acc s; cbn [map_loop].
+  - (destruct (n <=? 0)%Z; [leafA|]). destruct (lstop s && has_err s) eqn:E1; [leafA|]; destruct (stuck s) eqn:E2; [cbn [allR]; apply R_spin_by; eapply stuck_not_stopping; eauto|]. exact I.
+  - (destruct (n <=? 0)%Z; [leafA|]). destruct (lstop s && has_err s) eqn:E1; [leafA|]; destruct (stuck s) eqn:E2; [cbn [allR]; apply R_spin_by; eapply stuck_not_stopping; eauto|].
+    apply allR_bnd; [apply (allR_weaken _ _ s (add_alloc s (map_entry ks vs))); [apply R_add_alloc|apply Hrv]|].
+    intros kv x. apply allR_bnd; [apply Hrv|]. intros vv y.
+    destruct ks; try apply IH. destruct (hashable kv); [apply IH|].
+    cbn [allR]. split; [apply R_refl|]. apply (allR_weaken _ _ y (set_error y KDecode)); [apply R_set_error|apply IH].
 Qed.
 
 Ltac stepD :=
   match goal with
-  | |- allR ?s0 (names_loop _ _ _ _ _ ?x) => apply (allR_weaken _ _ s0 x); [solveR|apply allR_names_loop]
-  | |- allR ?s0 (map_loop _ _ _ _ _ _ _ _ ?x) => apply (allR_weaken _ _ s0 x); [solveR|apply allR_map_loop]
+  | |- allR ?s0 (names_loop _ _ _ _ ?x) => apply (allR_weaken _ _ s0 x); [solveR|apply allR_names_loop]
+  | |- allR ?s0 (map_loop _ _ _ _ _ _ _ ?x) => apply (allR_weaken _ _ s0 x); [solveR|apply allR_map_loop]
   | |- allR _ ((let '(_, _) := ?p in _) _) => is_var p; destruct p
   | |- allR _ (let '(_, _) := ?p in _) => is_var p; destruct p
   | _ => stepC
@@ -604,7 +662,7 @@ Qed.
 Lemma allR_decode_field : forall f nm s, allR s (decode_field rv f nm s).
 Proof. intros f nm s. unfold decode_field. solveD. Qed.
 
-Lemma allR_read_object : forall s, allR s (read_object fx rv lf s).
+Lemma allR_read_object : forall s, allR s (read_object rv lf s).
 Proof.
   intros s. unfold read_object. apply allR_get_class. intros c x. solveD.
   apply allR_decode_field.
@@ -636,7 +694,7 @@ Qed.
 Ltac stepE :=
   match goal with
   | |- allR ?s0 (read_struct _ _ _ _ _ ?x) => apply (allR_weaken _ _ s0 x); [solveR|apply allR_read_struct]
-  | |- allR ?s0 (read_object _ _ _ ?x) => apply (allR_weaken _ _ s0 x); [solveR|apply allR_read_object]
+  | |- allR ?s0 (read_object _ _ ?x) => apply (allR_weaken _ _ s0 x); [solveR|apply allR_read_object]
   | |- allR ?s0 (decode_error _ _ ?x) => apply (allR_weaken _ _ s0 x); [solveR|apply allR_decode_error]
   | |- allR ?s0 (default_decode _ _ _ _ _ _ _ _ ?x) => apply (allR_weaken _ _ s0 x); [solveR|apply allR_default_decode]
   | |- allR ?s0 (str_u _ ?x) => apply (allR_weaken _ _ s0 x); [solveR|apply allR_str_u]
@@ -735,8 +793,11 @@ Qed.
 
 Lemma allR_args_loop : forall fuel m k i n s, allR s (args_loop orc registry fx fuel k m i n s).
 Proof.
-  intros fuel m. induction k as [|k IH]; intros i n s; cbn [args_loop]; solveF.
-  eapply allR_weaken; [apply R_refl|apply IH].
+  intros fuel m. induction k as [|k IH]; intros i n s; cbn [args_loop].
+  - (destruct (n <=? 0)%Z; [leafA|]). destruct (lstop s && has_err s) eqn:E1; [leafA|]; destruct (stuck s) eqn:E2; [cbn [allR]; apply R_spin_by; eapply stuck_not_stopping; eauto|]. exact I.
+  - (destruct (n <=? 0)%Z; [leafA|]). destruct (lstop s && has_err s) eqn:E1; [leafA|]; destruct (stuck s) eqn:E2; [cbn [allR]; apply R_spin_by; eapply stuck_not_stopping; eauto|].
+    apply allR_bnd; [|intros a x; apply IH].
+    match goal with |- allR ?s0 (dec_val _ _ _ _ _ ?x) => apply (allR_weaken _ _ s0 x); [solveR|apply allR_dec_val] end.
 Qed.
 
 Lemma allR_decode_arguments : forall fuel missing m s, allR s (decode_arguments orc registry fx fuel missing m s).
@@ -746,7 +807,7 @@ Proof.
 Qed.
 
 Lemma allR_service_decode : forall fuel ms missing bs,
-  allR (init bs false) (service_decode orc registry fx fuel ms missing bs).
+  allR (start fx bs false) (service_decode orc registry fx fuel ms missing bs).
 Proof.
   intros fuel ms missing bs. unfold service_decode. destruct bs as [|b0 bs]; [cbn [allR]; apply R_refl|].
   apply allR_read_header. intros t h x. destruct (tag_is t "C").
@@ -765,7 +826,7 @@ Proof.
 Qed.
 
 Lemma allR_client_decode : forall fuel rts bs,
-  allR (init bs false) (client_decode orc registry fx fuel rts bs).
+  allR (start fx bs false) (client_decode orc registry fx fuel rts bs).
 Proof.
   intros fuel rts bs. unfold client_decode. apply allR_read_header. intros t h x. destruct (tag_is t "R").
   - apply allR_header_simple. intros smp.
@@ -787,7 +848,7 @@ End Mono.
 
 Lemma stuck_R : forall s s', R s s' -> stuck s = true -> stuck s' = true.
 Proof.
-  intros s s' [H1 [H2 _]] H. unfold stuck in *. destruct (rest s) eqn:E; [|discriminate].
+  intros s s' [[H1 [H2 _]] _] H. unfold stuck in *. destruct (rest s) eqn:E; [|discriminate].
   destruct (rest s'); [auto|cbn in H1; lia].
 Qed.
 
